@@ -461,14 +461,20 @@ theorem files_step (h : Hooks) (fuel : Nat) (hF : PFile h fuel) (hFs : PFiles h 
             exact ⟨by omega, hff, by omega, hFs _ _ _ _ _ _ _ _ hlen hlength (by omega) hpfs⟩
   · cases hp
     simp [FilesAt]
+namespace FaithfulAux
 theorem rd_lt (b : Bytes) (off len : Nat) : rd b off len < 256 ^ len := by
   unfold rd
   have h1 := fromLE_lt (slice b off len)
   have h2 : (slice b off len).length ≤ len := by simp [slice, List.length_take]; omega
   exact Nat.lt_of_lt_of_le h1 (Nat.pow_le_pow_right (by omega) h2)
+end FaithfulAux
+open FaithfulAux
 
+namespace FaithfulAux
 theorem rd_drop (b : Bytes) (n off len : Nat) : rd (b.drop n) off len = rd b (n + off) len := by
   unfold rd slice; rw [List.drop_drop]
+end FaithfulAux
+open FaithfulAux
 
 
 
@@ -884,6 +890,7 @@ theorem parseRegions_ok (h : Hooks) (hb : h.BoundedCodecs) (fuel : Nat) (bs : By
                   refine ⟨fr, rfl, hbl, hl5, heo, rfl, ?_, ?_, trivial⟩
                   · simp only [Region.rtype]; omega
                   · simp only [Region.rtype, Int.toNat_natCast]; exact hget
+namespace FaithfulAux
 theorem mem_insertRegion (r x : Region) : ∀ xs : List Region, x ∈ insertRegion r xs → x = r ∨ x ∈ xs := by
   intro xs
   induction xs with
@@ -901,7 +908,10 @@ theorem mem_insertRegion (r x : Region) : ∀ xs : List Region, x ∈ insertRegi
         cases ih hx with
         | inl h => exact Or.inl h
         | inr h => exact Or.inr (List.mem_cons_of_mem _ h)
+end FaithfulAux
+open FaithfulAux
 
+namespace FaithfulAux
 theorem mem_sortRegions (x : Region) : ∀ rs : List Region, x ∈ sortRegions rs → x ∈ rs := by
   intro rs
   induction rs with
@@ -913,6 +923,8 @@ theorem mem_sortRegions (x : Region) : ∀ rs : List Region, x ∈ sortRegions r
     cases mem_insertRegion r x _ hx with
     | inl h => rw [h]; exact List.mem_cons_self
     | inr h => exact List.mem_cons_of_mem _ (ih h)
+end FaithfulAux
+open FaithfulAux
 
 /-- a gap region placed at a block boundary below 256 MiB reports its true start -/
 theorem gap_base (off : Nat) (h1 : off % 4096 = 0) (h2 : off / 4096 < 65536) :
